@@ -559,6 +559,10 @@ func (n *TreeNodeInstance) dispatchMsgToProtocol(onetMsg *ProtocolMsg) error {
 
 	n.rx.add(uint64(onetMsg.Size))
 
+	if onetMsg.From == nil {
+		return xerrors.New("message without sender token")
+	}
+
 	// if message comes from parent, dispatch directly
 	// if messages come from children we must aggregate them
 	// if we still need to wait for additional messages, we return
